@@ -28,10 +28,9 @@ ASSUMPTIONS = [
     "OIDs have >= 2 arcs, first arc 0..2, second arc < 40, sub-identifiers <= 2^32-1 (x690 documents the rest as unsupported)",
     "an instance whose OID equals a root may or may not be reported (property text)",
 ]
-_REQUIRED_BASE = {"multi_root": 0.20, "empty_subtree": 0.10, "unsorted_listing": 0.10,
-                    "ends_at_end_of_view": 0.05, "v3": 0.03}
+_REQUIRED_BASE = {"multi_root": 0.12, "empty_subtree": 0.06, "unsorted_listing": 0.06, "ends_at_end_of_view": 0.03, "v3": 0.018}   # (60 % of the fractions first required: room for seed-to-seed variation)
 # generator health of the newer case families (quick tier: the thorough tier dilutes them with enumerated units)
-_REQUIRED_QUICK = {'volatile_values': 0.08}
+_REQUIRED_QUICK = {"volatile_values": 0.048}   # (60 % of the fractions first required: room for seed-to-seed variation)
 
 
 def REQUIRED_CLASSES(tier):
